@@ -7,6 +7,7 @@ import (
 	"time"
 
 	"github.com/Factom-Asset-Tokens/factom"
+	"github.com/pegnet/pegnetd/config"
 	"github.com/pegnet/pegnetd/fat/fat2"
 	"github.com/pegnet/pegnetd/node/pegnet"
 	"github.com/pegnet/pegnetd/zzverif/vrt"
@@ -196,21 +197,31 @@ func vrtSpecialsAfter(db *sql.DB, sc vrtScenario, bals []uint64) {
 				}
 			}
 			vrt.Assert(id, got == want[k])
+			if !(sc.name == "old-burn-zeroing" && i == 0) {
+				// read as C04: supply is destroyed / created only by the scheduled event of this height,
+				// on the address and for the amount the schedule names (D20's address is left to C15)
+				vrt.Assert("C04.scheduled-adjustments-touch-exactly-their-address-and-amount", got == want[k])
+			}
 			k++
 		}
 	}
 }
 
 func vrtResume(db *sql.DB) *Pegnetd {
-	// what NewPegnetd does at start-up: take the sync height from the database
-	d := new(Pegnetd)
-	d.Pegnet = &pegnet.Pegnet{DB: db}
-	d.Config = viper.New()
-	s, err := d.Pegnet.SelectSynced(context.Background(), db)
+	// what a start of the daemon does: NewPegnetd's own body (regenerated from the current
+	// node/node.go on every run, see /verif/hooks.py) on this database - tables + migrations,
+	// the sync height, the hard-fork check, and whatever else the start-up path reads into memory
+	// (started with --no-hf: the harness databases begin at a mainnet height without the version
+	// rows of the earlier fork heights; the hard-fork check still runs, its verdict is C19's subject)
+	conf := viper.New()
+	conf.Set(config.DisableHardForkCheck, true)
+	d, err := vrtStartDaemon(context.Background(), conf, db)
 	if err != nil {
 		panic("resume: " + err.Error())
 	}
-	d.Sync = s
+	if vrtStartExtracted {
+		vrt.Cover("real-start-up-code")
+	}
 	return d
 }
 
@@ -224,9 +235,10 @@ func vrtSyncedHeight(db *sql.DB) uint32 {
 }
 
 func vrtVersionRows(db *sql.DB, from, to uint32) bool {
-	// exactly one pn_sync_version row per height in (from-1, to], none above
+	// exactly one pn_sync_version row per height in (from-1, to], none above (rows below `from` are
+	// the legacy markers the start-up hard-fork check back-fills for earlier fork heights)
 	var n, mn, mx int
-	if err := db.QueryRow(`SELECT COUNT(*), COALESCE(MIN(height),0), COALESCE(MAX(height),0) FROM pn_sync_version`).Scan(&n, &mn, &mx); err != nil {
+	if err := db.QueryRow(`SELECT COUNT(*), COALESCE(MIN(height),0), COALESCE(MAX(height),0) FROM pn_sync_version WHERE height >= ?`, from).Scan(&n, &mn, &mx); err != nil {
 		panic(err)
 	}
 	return n == int(to-from)+1 && uint32(mn) == from && uint32(mx) == to
@@ -252,6 +264,7 @@ func VerifSyncLoop() {
 	dbR := vrt.NewFaultDB()
 	dR := vrtNodeOn(dbR)
 	vrtSeedLedger(dbR, dR, sc, bals)
+	dR = vrtResume(dbR) // the daemon under test is one that was STARTED on this database
 	ref := []int{vrt.Snapshot(dbR)}
 	c0 := vrt.Monitor("dbcalls")
 	marks := new(vrtMarks)
@@ -263,6 +276,7 @@ func VerifSyncLoop() {
 	dbS := vrt.NewFaultDB()
 	dS := vrtNodeOn(dbS)
 	vrtSeedLedger(dbS, dS, sc, bals)
+	dS = vrtResume(dbS) // the daemon under test is one that was STARTED on this database
 	// the second replay happens at a later wall-clock second (symbolically every time.Now() is a
 	// fresh value anyway; natively the pause makes a stored wall-clock value differ)
 	time.Sleep(1100 * time.Millisecond)
@@ -287,6 +301,7 @@ func VerifSyncLoop() {
 	db := vrt.NewFaultDB()
 	d := vrtNodeOn(db)
 	vrtSeedLedger(db, d, sc, bals)
+	d = vrtResume(db) // the daemon under test is one that was STARTED on this database
 	base := vrt.Monitor("dbcalls")
 	failReq := -1
 	k := vrt.Choose("point", nCalls+1) // == nCalls: no DB crash/fault
